@@ -542,9 +542,18 @@ theorem abs_len_le {α : Type} {r : RingHead} {buf q : List α} (h : Abs r buf q
   have := h.2.2.1
   omega
 
-/-- every operation of the ring does what the reference FIFO does -/
-theorem step_refines {r : RingHead} {buf q : List Byte} (h : Abs r buf q)
-    (hS : r.size.toNat ≤ 2 ^ 31) (op : Op) {q' : List Byte} {o : Out}
+/-- operations that move an index by a `bias` (`ring_move_head` / `ring_move_tail`) -/
+def Op.isBulk : Op → Bool
+  | .produce _ => true
+  | .consume _ => true
+  | .moveHead _ => true
+  | .moveTail _ => true
+  | _ => false
+
+/-- every operation of the ring does what the reference FIFO does (bulk moves:
+on rings of at most 2^31 slots) -/
+theorem step_refines {r : RingHead} {buf q : List Byte} (h : Abs r buf q) (op : Op)
+    (hS : op.isBulk = true → r.size.toNat ≤ 2 ^ 31) {q' : List Byte} {o : Out}
     (hs : specStep (r.size.toNat - 1) q op = some (q', o)) :
     ∃ r' buf', stepRing r buf op = some (r', buf', o) ∧ r'.size = r.size ∧ Abs r' buf' q' := by
   have hle := abs_len_le h
@@ -588,7 +597,7 @@ theorem step_refines {r : RingHead} {buf q : List Byte} (h : Abs r buf q)
         rw [hf _ (fun j hj => slot_free wf.1 wf.2 (by unfold RingHead.cnt at hl; omega)
           (by unfold RingHead.cnt at hl; omega)), hq i hi]
       exact ⟨ringMoveHead r (BitVec.ofNat 32 d.length), buf', by simp [stepRing, e], by simp,
-        abs_moveHead d ha hS hd hw⟩
+        abs_moveHead d ha (hS rfl) hd hw⟩
     · simp at hs
   | produce1 c =>
     simp only [specStep] at hs
@@ -610,7 +619,7 @@ theorem step_refines {r : RingHead} {buf q : List Byte} (h : Abs r buf q)
           have hj' : j < q.length := by simp at hj; omega
           rw [h.2.2.2 j hj']; simp)
       exact ⟨ringMoveTail r (BitVec.ofNat 32 n), buf, by simp [stepRing, e], by simp,
-        abs_moveTail n h hS hn⟩
+        abs_moveTail n h (hS rfl) hn⟩
     · simp at hs
   | consume1 =>
     cases q with
@@ -626,7 +635,7 @@ theorem step_refines {r : RingHead} {buf q : List Byte} (h : Abs r buf q)
     split at hs
     · rename_i hn
       obtain ⟨rfl, rfl⟩ : q.drop n.toNat = q' ∧ Out.unit = o := by simpa using hs
-      have := abs_moveTail n.toNat h hS hn
+      have := abs_moveTail n.toNat h (hS rfl) hn
       rw [BitVec.ofNat_toNat, BitVec.setWidth_eq] at this
       exact ⟨ringMoveTail r n, buf, by simp [stepRing], by simp, this⟩
     · simp at hs
@@ -1326,9 +1335,10 @@ theorem spec_run_conserves {cap : Nat} : ∀ (ops : List Op) {q q' : List Byte} 
           simp only [acceptedAll, deliveredAll]
           rw [← List.append_assoc, h1, List.append_assoc, h2, List.append_assoc]
 
-/-- a whole history refines the reference FIFO -/
+/-- a whole history refines the reference FIFO: on every ring if no bulk move is
+used, on rings of at most 2^31 slots otherwise -/
 theorem run_refines : ∀ (ops : List Op) {r : RingHead} {buf q q' : List Byte} {outs : List Out},
-    Abs r buf q → r.size.toNat ≤ 2 ^ 31 →
+    Abs r buf q → (r.size.toNat ≤ 2 ^ 31 ∨ ∀ op ∈ ops, op.isBulk = false) →
     runSpec (r.size.toNat - 1) q ops = some (q', outs) →
     ∃ r' buf', runRing r buf ops = some (r', buf', outs) ∧ r'.size = r.size ∧ Abs r' buf' q'
   | [], r, buf, q, q', outs, h, _, hs => by
@@ -1343,9 +1353,13 @@ theorem run_refines : ∀ (ops : List Op) {r : RingHead} {buf q q' : List Byte} 
         · simp at hs
         · rename_i q2 os e2
           obtain ⟨rfl, rfl⟩ : q2 = q' ∧ o :: os = outs := by simpa using hs
-          obtain ⟨r1, b1, e1, hsz, h1⟩ := step_refines h hS op e
-          rw [← hsz] at e2 hS
-          obtain ⟨r2, b2, e3, hsz2, h2⟩ := run_refines ops h1 hS e2
+          have hop : op.isBulk = true → r.size.toNat ≤ 2 ^ 31 := fun hb =>
+            hS.elim id (fun hn => by have := hn op (by simp); simp [this] at hb)
+          obtain ⟨r1, b1, e1, hsz, h1⟩ := step_refines h op hop e
+          have hS' : r1.size.toNat ≤ 2 ^ 31 ∨ ∀ op ∈ ops, op.isBulk = false := by
+            rw [hsz]; exact hS.imp id (fun hn op' hop' => hn op' (by simp [hop']))
+          rw [← hsz] at e2
+          obtain ⟨r2, b2, e3, hsz2, h2⟩ := run_refines ops h1 hS' e2
           exact ⟨r2, b2, by simp [runRing, e1, e3], hsz2.trans hsz, h2⟩
 
 /-- a whole history, ANY operations with ANY arguments: no fault, invariant kept -/
